@@ -15,6 +15,7 @@ import (
 	"go/types"
 	"regexp"
 	"sort"
+	"strconv"
 	"strings"
 	"text/template/parse"
 )
@@ -223,13 +224,17 @@ func findIdentByName(c *Ctx, dir, name string) (token.Pos, bool) {
 // rendering
 
 type renderer struct {
-	c      *Ctx
-	k      int
-	actSet int
-	errs   []string
-	loops  []loopFrame
-	match  string // current regex match for replacement functions
-	ts     bool   // TypeScript placeholders
+	c        *Ctx
+	k        int
+	actSet   int
+	errs     []string
+	loops    []loopFrame
+	match    string                        // current regex match for replacement functions
+	ts       bool                          // TypeScript placeholders
+	sentinel func(h *SHole) (string, bool) // optional: replaces the text of selected holes
+	bothAlts bool                          // render both arms of data-dependent alternatives
+	quoted   int                           // > 0 while rendering the inside of a %q
+	repls    []*SRepl                      // replacements enclosing the part being rendered
 }
 
 type loopFrame struct {
@@ -302,12 +307,17 @@ func (r *renderer) render(s Shape) string {
 		return b.String()
 	case *SAlt:
 		// data-dependent alternative: alternate by iteration so both arms are rendered
+		if r.bothAlts {
+			return r.render(x.Then) + r.render(x.Else)
+		}
 		if (r.innerIter()+r.actSet)%2 == 0 {
 			return r.render(x.Then)
 		}
 		return r.render(x.Else)
 	case *SRepl:
+		r.repls = append(r.repls, x)
 		base := r.render(x.Base)
+		r.repls = r.repls[:len(r.repls)-1]
 		if !x.IsRegex {
 			return strings.ReplaceAll(base, x.Old, r.render(x.New))
 		}
@@ -324,6 +334,11 @@ func (r *renderer) render(s Shape) string {
 		})
 	case *SHole:
 		return r.hole(x)
+	case *SQuote:
+		r.quoted++
+		inner := r.render(x.Inner)
+		r.quoted--
+		return strconv.Quote(inner)
 	case *sVar:
 		r.errf("internal marker left in shape")
 		return ""
@@ -340,6 +355,19 @@ func isIntType(t types.Type) bool {
 }
 
 func (r *renderer) hole(h *SHole) string {
+	if r.sentinel != nil {
+		if s, ok := r.sentinel(h); ok {
+			return s
+		}
+	}
+	s := r.holeText(h)
+	if h.Verb == "q" {
+		return strconv.Quote(s)
+	}
+	return s
+}
+
+func (r *renderer) holeText(h *SHole) string {
 	p := h.Path
 	it := r.innerIter()
 	// regex replacement function: the match and its suffix
